@@ -319,6 +319,104 @@ def gen_text(rng):
     s.emit(f'close {o}'); s.emit(f'scan {o}'); s.emit(f'print {o} 1')
     return s.lines
 
+# ---- typed text: print_to / scan_from with every conversion scan_from_with supports (ops tp / ts)
+IMODS = ['', 'hh', 'h', 'l', 'll', 'j', 'z', 't', 'q']
+ICONVS = ['d', 'i', 'u', 'x', 'X', 'o']
+WIDTH = {'': 32, 'hh': 8, 'h': 16}
+def int_boundaries():
+    vs = {0, 1, 2, 9, 10}
+    for k in (7, 8, 15, 16, 31, 32, 63):
+        for d in (-1, 0, 1): vs.add(2 ** k + d)
+    vs.add(2 ** 64 - 1)
+    vs |= {-v for v in vs}
+    vs |= {3735928559, 4000000000, 2863311530, 305419896, -559038737}
+    return sorted(v for v in vs if -(2 ** 63) <= v < 2 ** 63)
+BOUNDS = int_boundaries()
+SEPS_TERM = ['20', '0a', '09', '2c', '2c20', '3b', '0d0a', '203a20', '7c', '2020']       # " ", "\n", "\t", ",", ", ", ";", "\r\n", " : ", "|", "  "
+def hexs(b): return b.hex() if b else '-'
+def dbits(x):
+    import struct
+    return 'x%016x' % struct.unpack('<Q', struct.pack('<d', x))[0]
+FLOATS = [0.0, 1.0, -1.0, 1.5, -2.25, 0.1, 3.141592653589793, 2.718281828459045, 1e10, 123456.789, 1e-5, 2.0 ** -20, 16777216.0, 16777217.0,
+          0.30000000000000004, 1e15, -0.0, 5e-324, 1.17549435e-38, 3.4028234663852886e38, 65504.0, 1e22, 9007199254740993.0, 0.5, 255.99609375]
+FSPECS = ['f', 'lf', 'e', 'le', 'g', 'lg', 'F', 'lE', 'G', 'lF']
+WORDS = [b'a', b'hello', b'x1', b'-', b'%d', b'\xc3\xa9t\xc3\xa9', b'"q"', b'back\\slash', b'0x1f', b'A' * 64, b'\xff\x80', b'tab', b'?']
+STRS = WORDS + [b'', b'two words', b'line\nbreak', b'\t\r\x0b\x0c\x07\x08', b"it's", b'a"b', b'q?', b'sp ', b' lead', b'\x01\x7f']
+def typed_items_sweep(mod):
+    items = []
+    for cv in ICONVS:
+        for v in BOUNDS: items.append((mod + cv, str(v)))
+    return items
+def typed_item(rng):
+    r = rng.random()
+    if r < 0.62:
+        mod = rng.choice(IMODS); cv = rng.choice(ICONVS)
+        q = rng.random()
+        if q < 0.6: v = rng.choice(BOUNDS)
+        elif q < 0.8: v = rng.randrange(-(2 ** 63), 2 ** 63)
+        else: v = rng.randrange(-(2 ** 33), 2 ** 33)
+        return (mod + cv, str(v))
+    if r < 0.70: return ('c', str(rng.choice([65, 48, 32, 10, 0, 127, 128, 200, 255, -1, -128, 9, 34, 92, 1000, rng.randrange(-300, 300)])))
+    if r < 0.82:
+        x = rng.choice(FLOATS) if rng.random() < 0.7 else rng.choice([rng.uniform(-1e6, 1e6), rng.uniform(-1, 1), rng.randrange(-10**6, 10**6) / 64.0, float(rng.randrange(-2**24, 2**24))])
+        return (rng.choice(FSPECS), dbits(x))
+    if r < 0.88: return ('s', hexs(rng.choice(WORDS)))
+    if r < 0.93: return ('$i', str(rng.choice(BOUNDS)))
+    if r < 0.96: return ('$f', dbits(rng.choice(FLOATS)))
+    return ('$s', hexs(rng.choice(STRS)))
+def sep_for(rng, spec, last=False):
+    if spec == 's': return rng.choice(['20', '0a', '09', '2020', '0d0a'])
+    if spec == 'c' and rng.random() < 0.5: return '-'
+    if spec == '$s' and rng.random() < 0.3: return '-'
+    if last and rng.random() < 0.3: return '-'
+    return rng.choice(SEPS_TERM)
+def typed_case(rng, items, o=None, k=None, cross=0.0, extra=True):
+    """write every item with tp, go back (seek to the start on the same stream, or close / reopen for reading), read every item with ts"""
+    o = rng.randrange(8) if o is None else o; k = rng.randrange(NFILE) if k is None else k
+    lines = []
+    if o >= 4: lines.append(f'new {o}')
+    via_seek = rng.random() < 0.5
+    lines.append(f'open {o} {k} {rng.choice(MODES_WP) if via_seek else rng.choice(MODES_W + MODES_WP)}')
+    seps = [sep_for(rng, sp, i == len(items) - 1) for i, (sp, _) in enumerate(items)]
+    for (sp, v), sep in zip(items, seps):
+        lines.append(f'tp {o} {sp} {v} {sep}')
+        if rng.random() < 0.03: lines.append(f'tell {o}')
+    lines.append(f'tell {o}')
+    if via_seek:
+        wh = rng.choice(['set', 'set', 'cur', 'end'])
+        if wh == 'set': lines.append(f'seek {o} 0 set')
+        else: lines += [f'flush {o}', f'seek {o} 0 set'] if rng.random() < 0.5 else [f'seek {o} 0 set']
+    else:
+        if rng.random() < 0.5: lines.append(f'open {o} {k} {rng.choice(MODES_R + MODES_RP)}')          # reopen closes first
+        else: lines += [f'{rng.choice(["close", "stop"])} {o}', f'open {o} {k} {rng.choice(MODES_R + MODES_RP)}']
+    for (sp, v), sep in zip(items, seps):
+        sp2 = sp
+        if cross and rng.random() < cross and sp[-1] in 'diuxXo' and sp not in ('$i',):
+            sp2 = rng.choice(IMODS) + rng.choice(ICONVS)           # another conversion on the same text: still libc's verdict
+        lines.append(f'ts {o} {sp2} {sep}')
+        if rng.random() < 0.04: lines += [f'tell {o}', f'eof {o}']
+    if extra:
+        lines += [f'ts {o} {rng.choice(["d", "lx", "c", "s", "lf", "$i", "$s"])} -', f'eof {o}', f'tell {o}']
+        if rng.random() < 0.3 and items:
+            # back into the middle is not meaningful for text; back to the start and once more with the first item
+            lines += [f'seek {o} 0 set', f'ts {o} {items[0][0]} {seps[0]}']
+    lines += [f'close {o}', f'dump {k}', f'ts {o} d -', f'tp {o} d 1 -']
+    return lines
+def gen_typed_sweep(rng):
+    """every integer conversion × every length modifier × the boundary values of every width, once through seek and once through reopen"""
+    out = []
+    for mod in IMODS:
+        items = typed_items_sweep(mod)
+        out.append(typed_case(rng, items, extra=False))
+    misc = [('c', str(v)) for v in (0, 1, 9, 10, 32, 34, 65, 92, 127, 128, 200, 255, 256, -1, -128, -129)] + \
+           [(fs, dbits(x)) for fs in FSPECS for x in FLOATS] + [('s', hexs(w)) for w in WORDS] + \
+           [('$i', str(v)) for v in BOUNDS] + [('$f', dbits(x)) for x in FLOATS] + [('$s', hexs(w)) for w in STRS]
+    out.append(typed_case(rng, misc, extra=True))
+    return out
+def gen_typed(rng):
+    n = rng.choice([1, 2, 3, 5, 8, 13, 21, 34])
+    return typed_case(rng, [typed_item(rng) for _ in range(n)], cross=rng.choice([0, 0, 0.15]))
+
 def gen_device(rng):
     lines = []
     o = rng.randrange(8)
@@ -522,7 +620,7 @@ def gen_proc(rng):
 
 class C20(Spec):
     id = 'C20'; engine = 'file'; harness = 'h_file'; driver = 'drv_file'
-    generators = ('File',)
+    generators = ('File', 'FileScan')
     harness_flags = tuple(f'-Wl,--wrap={f}' for f in WRAPPED)
     technique = ('Lean 4 proofs over an executable model of File.c parameterised by an abstract stdio (closed-handle refusal and close-once for '
                  'every stdio implementation and every history; byte round trip for every chunking under a reference stdio); guard table and '
@@ -562,9 +660,23 @@ class C20(Spec):
                   'C20_with_stop_on_expression_refuted (the variant `X = stop_in(S)` re-evaluates the expression: a second File is opened and closed, '
                   'the first never, the file is truncated). C20_with_macro_clauses ties the three clauses to include/Cello.h on every run. '
                   'The facts about File.c the proofs rest on (guard before the first stdio call in every wrapper; File_Close guarded and always dropping '
-                  'the handle; open/del close a held handle) are re-extracted from the source on every run (C20_guard_table).')
+                  'the handle; open/del close a held handle) are re-extracted from the source on every run (C20_guard_table). '
+                  'Text, conversion by conversion: what scan_from_with (src/Show.c) does with what a conversion of vfscanf stored — the chain of tests on fmt_buf, '
+                  'the object scanf stores into, the expression of casts that becomes the Int — is read from the source as a term on every run '
+                  '(CelloGen.FileScan) and evaluated with C\'s conversion rules (integer promotion, usual arithmetic conversions of ?:). '
+                  'C20_scan_int_arms_select (each of the 54 specifications %[hh|h|l|ll|j|z|t|q][diouxX] reaches an arm whose object has the width libc stores), '
+                  'C20_scan_int_arms_ok / C20_scan_int_arms_convert (a verified interval evaluator decides on the extracted expressions that every arm delivers, '
+                  'for EVERY bit pattern, the pattern read as signed under d i and as unsigned under o u x X), C20_text_int_conversion (for every specification, '
+                  'every int64 and every following text that does not continue the number, scan_from_with applied to what printf wrote delivers C\'s conversion '
+                  'of the value to the type the specification names), C20_text_int_roundtrip (the identity on the range of that type, in particular %u %x %X %o '
+                  'of 2^31..2^32-1), C20_text_int_roundtrip_on_file (the same call on a File over the reference stdio: value, returned position, vfscanf calls on '
+                  'the held handle, stream moved), C20_text_char_roundtrip, C20_scan_float_arm (double exactly with l), C20_text_source_shape (the other branches, '
+                  'the arguments print_to_with hands to format_to, the formats of Int/Float Show and Look), C20_scan_sign_extending_arm_refuted (the variant '
+                  '`tmp = t;`: 4000000000 is read back as -294967296).')
     level_note = ('Trusted: Lean kernel; libc stdio is modelled by a reference implementation validated against glibc on every run (not verified); '
-                  'the text conversions of print_to/scan_from are C14/C15; the regex translator for File.c; harness/driver comparison is testing. '
+                  'libc\'s conversions themselves (printf of an integer / floating value, the number conversions of scanf) are the executable models of Cello/Text.lean '
+                  '(engine C15), validated here on every run by libc\'s own fprintf / fscanf on the twin file; the format scanner is C14; the regex translator for File.c '
+                  'and for the branches of scan_from_with; harness/driver comparison is testing. '
                   'Process (the second Stream class of src/File.c) shares the wrapper model: the translator checks that Process_<X> is File_<X> under the '
                   'renaming popen/pclose/p->proc for every function but the constructor (C20_process_same_wrappers); popen/pclose are modelled by a small '
                   'reference (commands true, false, cat) validated each run. '
@@ -580,18 +692,25 @@ class C20(Spec):
             'read back / scan of what they left; (h) copy / assign of Files closed just before, both objects then used independently; '
             'new(File, path) with one argument; (i) Process objects on `true`, `false` (non-zero exit status) and `cat` in both directions: constructor with '
             '2/1/0 arguments and bad modes, every op on a closed Process, reopen, del, with blocks, reads in chunks with over-reads, writes checked against the sink; '
-            '(j) `drop`: a heap File is made unreachable and a collection forced — the collector must make exactly the fclose `del` would make. '
+            '(j) `drop`: a heap File is made unreachable and a collection forced — the collector must make exactly the fclose `del` would make; '
+            '(k) typed text (ops tp / ts = print_to / scan_from with one specification and a literal run): a sweep over every integer conversion d i u x X o × '
+            'every length modifier (none hh h l ll j z t q) × the boundary values of every width (0, ±1, 2^7±1, 2^8±1, 2^15±1, 2^16±1, 2^31±1, 2^32±1, 2^63-1, -2^63, '
+            '0xdeadbeef, 4000000000 …), %c over the byte values, the floating conversions f F e E g G with and without l over 25 doubles (float-exact and not), '
+            '%s words, %$ on Int / Float / String (with every escape), separators " " "\\n" "\\t" "," ", " ";" "\\r\\n" " : " "|" or none, read back with the same '
+            'format on the same stream after sseek(0) or after close / reopen, plus random mixtures (some read with another conversion than they were written with) '
+            'and one read beyond the last item; corpus/file_typed_*.ops hold a fixed selection that runs first. '
             'The two known-finding regions (early exit with the File open; copy / assign of an open File) are '
             'exercised by corpus/kf_c20_*.ops only. non-trivial item = an op whose observation shows a stdio call or a '
             'refusal on a closed File; distinct = distinct (op text, observation).')
     trusted_base = ('translate/g_file.py (regex over src/File.c, src/Start.c, the three clauses of with_in)',
                     'harness/h_file.c + lean/Driver/File.lean (correspondence is testing)',
                     'glibc stdio is modelled by Cello.File.refIO (validated each run against libc on a twin file), not verified',
-                    'print_to/scan_from conversions (vfprintf/vfscanf) trusted: C14/C15',
+                    'libc\'s printf / scanf conversions: the executable models of Cello/Text.lean (C15), validated each run against libc\'s own fprintf / fscanf on the twin file; C\'s integer conversion rules as modelled in Cello/FileText.lean (conv, promote, uac)',
                     'popen/pclose and stdio on a pipe are modelled by Cello.File.pipeIO (commands true / false / cat; validated each run against the real calls), not verified')
     assumptions = ('one stream per file at a time (the reference stdio has no buffers); modes r w a r+ w+ (+b)',
                    'no read directly after write or write directly after read without fseek/fflush/EOF (undefined in C): such ops are skipped by both sides',
-                   'scan_from only on plain decimal text (no leading zeros / 0x, at most 18 digits)',
+                   'op `scan` (%$ on an Int) only on plain decimal text (no leading zeros / 0x, at most 18 digits); typed scans (op `ts`) are executed when libc converts the text at the position or the file ends there (a matching failure in the middle of the text, inf / nan / hexadecimal floats, a token beyond 4000 bytes, a %s word over 190 bytes: answered unsup by both sides); '
+                   'typed text: one specification and one literal run (at most 8 bytes, no %) per call, no flags / width / precision (C15), no %p, no %[ ]; string values up to 64 bytes without NUL; %a / %A are not modelled',
                    '/dev/full: write-only modes, at most 1024 buffered bytes, no seek', 'no write at an offset beyond 1 MiB',
                    'an object is not deleted inside its own with-block (use after free)',
                    'known finding KF-C20-with-early-exit: a with block left by break, return or an exception does not run stop_in (that is what the '
@@ -619,6 +738,10 @@ class C20(Spec):
             for i, ls in enumerate(seqs): cs.append(Case(f'{name}{i}', ls))
         # first: the family whose oracle is the sharpest on the `with` macro (a broken macro is then reported in seconds)
         pack('with', [gen_with(rng, maxbuf) for _ in range((120 if quick else 900) * boost)], 1)
+        # typed text: the sweep over every conversion × modifier × boundary value (deterministic up to the choice of separators and of
+        # seek / reopen), then random mixtures
+        for rep in range(1 if quick else 4): pack(f'typedsweep{rep}_', gen_typed_sweep(rng), 1)
+        pack('typed', [gen_typed(rng) for _ in range((80 if quick else 700) * boost)], 1)
         n_rt = (150 if quick else 1200) * boost
         pack('rt', [gen_roundtrip(rng, maxbuf) for _ in range(n_rt)], 1)
         ex = gen_lifecycle_exhaustive(3 if quick else 4)
